@@ -122,6 +122,8 @@ func Load(cfg LoadConfig) (*Engine, error) {
 
 func (e *Engine) Package(path string) *ssa.Package { return e.byPkg[path] }
 
+func (e *Engine) stringType() types.Type { return types.Typ[types.String] }
+
 // Func resolves names of the form "pkg/path.Func", "pkg/path.Type.Method" (value or
 // pointer receiver; both are tried).
 func (e *Engine) Func(name string) *ssa.Function {
